@@ -30,7 +30,7 @@ RULE = ('tables: S(12)/S(16) ∪ F ∪ P ∪ W as in C03; per table every argume
 ASSUMPTIONS = ['R1 derivation is the definition (all()/any() over rows); on wide tables the '
                'equivalent intersection-of-row-sets form, cross-checked in the self test',
                'labels are opaque strings; two labelings explored on S and F']
-HITS = ('hit_multi_arg',)
+HITS = ('hit_multi_arg', 'hit_sibling_schedule')
 BUDGET = {'quick': 240, 'thorough': 3000}
 
 BOUNDARY = (0, 1, 2, 28, 29, 30, 31, 32, 58, 59, 60, 61, 62, 63, 64, 65, 66, 126, 127, 128, 129)
@@ -146,6 +146,28 @@ def check_case(case, ctr):
     check_axis(case, ctr, V, 'ext', case.m, pblock, wide)
     if ctx.intension(()) != case.props or ctx.extension(()) != case.objs:
         V.append(common.violation(ID, 'empty-collection', case.ident(), None, None))
+    # interleaving with sibling contexts over the same labels but another table
+    if case.labeling == space.ASC and case.n * case.m <= 16 and not V:
+        older, a, newer, iref = e1.sibling_schedule(case)
+        ctr['hit_sibling_schedule'] += 1
+        for c, r, name in ((a, case.ref, 'case-context'), (older, iref, 'older-sibling')):
+            for i in range(case.n):
+                ctr['calls'] += 1
+                if c.intension([case.objs[i]]) != case.plab(r.intent_of([i])):
+                    V.append(common.violation(ID, 'derivation-with-sibling-contexts',
+                                              case.ident(which=name, arg=[case.objs[i]]),
+                                              case.plab(r.intent_of([i])),
+                                              c.intension([case.objs[i]])))
+                    break
+            for j in range(case.m):
+                ctr['calls'] += 1
+                if c.extension([case.props[j]]) != case.olab(r.extent_of([j])):
+                    V.append(common.violation(ID, 'derivation-with-sibling-contexts',
+                                              case.ident(which=name, arg=[case.props[j]]),
+                                              case.olab(r.extent_of([j])),
+                                              c.extension([case.props[j]])))
+                    break
+        del older, a, newer
     return V
 
 
